@@ -35,6 +35,9 @@ def base_equal(a, b):
 
 
 def check_class(chk, ex, cls, found):
+    if ("saveload", cls) in chk.done:
+        return
+    chk.done.add(("saveload", cls))
     name = cls + ".save/load"
     for phi_none in ((True, False) if cls == "HeavyHitters" else (True,)):
         a, objs, _ = _glue.good_objects(ex, cls, "s", phi_none=phi_none)
